@@ -329,8 +329,42 @@ def m_sum(interp, args, kw):
     return acc
 
 
+def _key_less(interp, a, b):
+    """python `a < b` on sort keys (scalars or tuples, lexicographic), decided by path branching."""
+    if isinstance(a, tuple) and isinstance(b, tuple):
+        for x, y in zip(a, b):
+            if interp.path.branch(truth(interp.compare(ast.Lt, x, y))):
+                return True
+            if interp.path.branch(truth(interp.compare(ast.Lt, y, x))):
+                return False
+        return len(a) < len(b)
+    return interp.path.branch(truth(interp.compare(ast.Lt, a, b)))
+
+
+def stable_sort(interp, items, key=None, reverse=False):
+    """list.sort / sorted semantics (stable; reverse keeps the original order of equal keys): insertion sort whose
+    comparisons fork the path, so each path carries one concrete permutation plus the order facts in its pc."""
+    keyed = [(interp.call(key, [x]) if key is not None else x, x) for x in items]
+    out = []
+    for k, x in keyed:
+        pos = len(out)
+        while pos > 0:
+            pk = out[pos - 1][0]
+            move = _key_less(interp, pk, k) if reverse else _key_less(interp, k, pk)
+            if not move:
+                break
+            pos -= 1
+        out.insert(pos, (k, x))
+    return [x for k, x in out]
+
+
 def m_sorted(interp, args, kw):
-    raise Unsupported("sorted() on symbolic values needs the stable-sort contract of the caller")
+    return stable_sort(interp, interp.iterate(args[0]), key=kw.get("key"), reverse=bool(kw.get("reverse", False)))
+
+
+def m_list_sort(interp, lst, args, kw):
+    lst[:] = stable_sort(interp, list(lst), key=kw.get("key"), reverse=bool(kw.get("reverse", False)))
+    return None
 
 
 def m_warn(interp, args, kw):
